@@ -62,6 +62,9 @@ def program_strategy(draw, max_ops=8):
                                "shape": st.sampled_from(["free", "first", "last", "all-but-one", "free"]),
                                "clear": st.booleans()}),
         st.fixed_dictionaries({"op": st.just("mcopy"), "mask": st.lists(st.booleans(), min_size=1, max_size=12)}),
+        # a masked copy of ONE data set (onto the same object): the source data set keeps every value
+        st.fixed_dictionaries({"op": st.just("dcopy"), "data": st.integers(0, 10),
+                               "mask": st.lists(st.booleans(), min_size=2, max_size=12)}),
         st.just({"op": "reopen"}),
         # more vertices are appended through the `vertices` setter and the file is re-opened (the live arrays are not
         # judged in between: the statement lists no growth operation, a reader must still find one entry per vertex)
@@ -358,6 +361,27 @@ class C07(Check):
                         return res
                     ws.remove_entity(new)
                     del new
+                elif kind == "dcopy":
+                    names = sorted(n for n, d in model.data.items() if d["kind"] != "text")
+                    if not names:
+                        continue
+                    name = names[op["data"] % len(names)]
+                    count = model.count(model.data[name]["assoc"])
+                    mask = np.asarray((list(op["mask"]) * count)[:count], dtype=bool)
+                    if count < 2 or mask.all() or not mask.any():
+                        continue
+                    child = obj.get_data(name)
+                    if not child:
+                        continue
+                    try:
+                        new = child[0].copy(mask=mask, name="masked data")
+                    except Exception as exc:
+                        res.label(f"dcopy:refused:{type(exc).__name__}")
+                        continue
+                    res.label("dcopy")
+                    if new is not None:
+                        ws.remove_entity(new)
+                    del new, child
                 elif kind == "grow":
                     if any(d["kind"] == "text" for d in model.data.values()):
                         res.label("grow:skipped-text-data")  # text arrays have no length rule (recorded finding)
